@@ -300,6 +300,16 @@ pub enum RosCase {
         others: Vec<AC>,
         limit: u64,
     },
+    /// the same chain analysis, but with the chain prefix and the full chain each modelled as ONE
+    /// request bound with the summed WCET (scalar costs only) — the other legitimate way of
+    /// describing a chain to `rta_processing_chain`
+    ChainSummed {
+        supply: SupplySpec,
+        src: ArrSpec,
+        costs: Vec<u64>,
+        others: Vec<AC>,
+        limit: u64,
+    },
     /// rr (bw = false) or bw (bw = true) subchain analysis
     Sub {
         bw: bool,
@@ -362,6 +372,20 @@ pub fn run_ros(c: &RosCase) -> Outcome {
             let full = Slice::of(&all[..]);
             let o = rbfs_of(others);
             ros2::rta_processing_chain(&sup, last, &prefix, &full, &Slice::of(&o), d(*limit))
+        }
+        RosCase::ChainSummed {
+            supply,
+            src,
+            costs,
+            others,
+            limit,
+        } => {
+            let sup = supply.build();
+            let last = rbf(src, &CostSpec::Scalar(*costs.last().unwrap()));
+            let prefix = rbf(src, &CostSpec::Scalar(costs[..costs.len() - 1].iter().sum()));
+            let full = rbf(src, &CostSpec::Scalar(costs.iter().sum()));
+            let o = rbfs_of(others);
+            ros2::rta_processing_chain(&sup, &last, &prefix, &full, &Slice::of(&o), d(*limit))
         }
         RosCase::Sub {
             bw,
